@@ -358,12 +358,12 @@ class Parser:
             self.__curcommand = test
             return self.__check_command_completion(testsemicolon=False)
 
-        if ttype == "left_parenthesis":
+        if ttype == "left_parenthesis" and self.__curcommand.variable_args_nb:
             self.__push_expected_bracket("right_parenthesis", b")")
             self.__set_expected("identifier")
             return True
 
-        if ttype == "comma":
+        if ttype == "comma" and self.__curcommand.variable_args_nb:
             self.__set_expected("identifier")
             return True
 
